@@ -109,6 +109,7 @@ def handle : List String → String
       match Ext.ofNat? e with
       | some e =>
         if bytes.isEmpty ∨ l2 > 63 ∨ b > 255 ∨ g > 255 then "bad-op" else
+        if ¬ contextAccepted ⟨1, b, g, e, 8, 0⟩ (2 ^ l2) then "noctx" else
         rle ((List.range 255).map fun i =>
           resShort (securityLevel ⟨i + 1, b, g, e, 8, 0⟩ bytes (2 ^ l2) cr true))
       | none => "bad-op"
@@ -119,6 +120,7 @@ def handle : List String → String
       match Ext.ofNat? e with
       | some e =>
         if bytes.isEmpty ∨ l2 > 63 ∨ b > 255 ∨ g > 255 ∨ q2 > 255 then "bad-op" else
+        if ¬ contextAccepted ⟨1, b, g, e, 8, 0⟩ (2 ^ l2) then "noctx" else
         rle ((List.range (q2 + 1 - q1)).map fun i =>
           resShort (securityLevel ⟨q1 + i, b, g, e, 8, 0⟩ bytes (2 ^ l2) cr false))
       | none => "bad-op"
@@ -132,12 +134,14 @@ def handle : List String → String
   | "validate" :: rest =>
     match parsePolicy rest with
     | some (a, p, cr) =>
+      if ¬ contextAccepted p.options p.traceLen then "noctx" else
       outStr "ok" (validate a p.options (securityLevel p.options p.modulusBytes p.traceLen cr))
     | none => "bad-op"
   | "verify" :: _cfg :: eb :: airmod :: quad :: cube :: airok :: rest =>
     match natList [eb, quad, cube, airok], unhex airmod, parsePolicy rest with
     | some [eb, quad, cube, airok], some airBytes, some (a, p, cr) =>
       let v : VerifierSide := ⟨airBytes, eb, quad == 1, cube == 1, cr, airok == 1⟩
+      if ¬ contextAccepted p.options p.traceLen then "noctx" else
       outStr "pass" (verifyTop a v p)
     | _, _, _ => "bad-op"
   | _ => "bad-op"
